@@ -344,7 +344,10 @@ func (e *Engine) step(st *State) {
 			if f.pc > 0 && f.pc <= len(f.block.Instrs) {
 				fmt.Println("   instr:", f.block.Instrs[f.pc-1])
 			}
-			panic(r)
+			// the executor could not carry out this instruction (typically library code running on a model object):
+			// the path is INCONCLUSIVE, never a pass
+			st.status = Unsupported
+			st.note = fmt.Sprintf("executor could not execute %s: %v", f.fn.String(), r)
 		}
 	}()
 	if f.pc >= len(f.block.Instrs) {
